@@ -20,10 +20,9 @@ C16-m32 is `ws.ReadHeader` answering `io.EOF` for a cut inside a header with
 no message open, which only has to be an error; C06-m69 makes a zero-length
 copy followed by Flush send nothing, which is not demanded; C05-m65 wraps a
 protocol error with %w, which errors.As and errors.Is - the way the checks
-classify errors - still recognise. Two are gaps left open when the session
-ended (wave 20; their meta.json says what each would need): C16-m78 needs a
-failing extension before a failing destination, C19-m77 connections that
-reject through hooks with one shared error value. Waves 5-9 asked for
+classify errors - still recognise. One is a gap left open when the session
+ended (wave 20): C16-m78 needs a five-step history with a failing extension
+before a failing destination (its meta.json spells it out). Waves 5-9 asked for
 refactorings, option combinations, transport or scheduling conditions, broken
 doc-comment guarantees, cleanup/resource slips, arithmetic and boundary slips,
 ordering of side effects, option-field defaults and sibling entry points that
